@@ -539,7 +539,9 @@ Definition act_expr_index (args : list pyval) : res pyval :=
   end.
 
 (* table-level PRIMARY KEY (..) / UNIQUE (..) / FOREIGN KEY (..) *)
-Definition is_sort_word (v : pyval) : bool := pystr_eq v "ASC" || pystr_eq v "DESC".
+(* ASC / DESC in any letter case (sort direction after a key column) *)
+Definition is_sort_word (v : pyval) : bool :=
+  match v with PStr s => String.eqb (upper s) "ASC" || String.eqb (upper s) "DESC" | _ => false end.
 Definition act_pkey (args : list pyval) : res pyval :=
   match args with
   | [PDict _; PStr "("; PList l; PStr ")"] => Ok (PDict [("primary_key", PList (filter (fun v => negb (is_sort_word v)) l))])
@@ -718,6 +720,61 @@ Definition act_alter_default (args : list pyval) : res pyval :=
   | _ => Unsupported "alter_default form"
   end.
 
+(* utils.check_spec *)
+Definition spec_mapper : list (string * string) :=
+  [("'pars_m_t'", "'" ++ String (ascii_of_nat 9) "'"); ("'pars_m_n'", "'" ++ String (ascii_of_nat 10) "'");
+   ("'pars_m_dq'", String (ascii_of_nat 34) ""); ("pars_m_single", "'")].
+Definition check_spec (s : string) : string :=
+  match assoc s spec_mapper with
+  | Some v => v
+  | None => match List.find (fun kv => contains s (fst kv)) spec_mapper with
+            | Some (k, v) => replace s k v
+            | None => s
+            end
+  end.
+
+(* p_f_call for the string-valued forms *)
+Definition fcall_piece (v : pyval) : res string :=
+  match v with
+  | PStr s => Ok s
+  | PList l => fold_left (fun acc x => do a <- acc; match x with PStr s => Ok (if String.eqb a "" then s else a ++ "," ++ s) | _ => Raise TypeError end) l (Ok "")
+  | _ => Raise TypeError
+  end.
+Definition act_f_call (args : list pyval) : res pyval :=
+  match args with
+  | PStr f :: rest =>
+      if String.eqb (upper f) "CAST" then Unsupported "f_call: CAST"
+      else do v <- fold_left (fun acc x => do a <- acc; do p <- fcall_piece x; Ok (a ++ p)) args (Ok ""); Ok (PStr v)
+  | _ => Unsupported "f_call form"
+  end.
+
+(* p_multi_id beyond a single id *)
+Definition act_multi_id_more (args : list pyval) : res pyval :=
+  match args with
+  | [PStr a; PStr b] => Ok (PStr (a ++ " " ++ b))
+  | [PDict d] => Ok (PDict d)
+  | _ => Unsupported "multi_id form"
+  end.
+
+(* p_default : the forms with a list or with an earlier default *)
+Definition act_default_more (args : list pyval) : res pyval :=
+  match remove_par args with
+  | [PStr "DEFAULT"; PList l] =>
+      do j <- join_names " " l;
+      Ok (PDict [("default", default_value j)])
+  | [PDict d; PStr x] =>
+      if contains x "FOR" then Unsupported "default ... FOR"
+      else
+        match dict_get d "default" with
+        | Some dv =>
+            do cur <- (match dv with PStr s => Ok s | PInt z => Ok (string_of_Z z) | _ => Unsupported "default: non-string earlier value" end);
+            let item := if String.eqb x ")" || String.eqb x "(" || contains x "::" then x else " " ++ x in
+            Ok (PDict (dict_set d "default" (PStr (replace (cur ++ item) "))" ")"))))
+        | None => Raise KeyError
+        end
+  | _ => Unsupported "default form"
+  end.
+
 Definition action_more (norm : bool) (prod : string) (args : list pyval) : res pyval :=
   match words prod with
   | lhs :: _ :: _ =>
@@ -778,6 +835,47 @@ Definition action_more (norm : bool) (prod : string) (args : list pyval) : res p
       match args with [PDict t; PDict u] => Ok (PDict (dict_update t u)) | _ => Unsupported "expr using form" end
     else if String.eqb prod "expr -> expr IN id" then
       match args with [PDict t; _; v] => Ok (PDict (dict_set t "tablespace" v)) | _ => Unsupported "expr IN form" end
+    else if String.eqb prod "comment -> COMMENT STRING" then
+      match args with [_; PStr c] => Ok (PDict [("comment", PStr (check_spec c))]) | _ => Unsupported "comment form" end
+    else if String.eqb prod "expr -> expr COMMENT STRING" then
+      match args with [PDict t; _; PStr c] => Ok (PDict (dict_set t "comment" (PStr (check_spec c)))) | _ => Unsupported "expr comment form" end
+    else if String.eqb prod "autoincrement -> AUTOINCREMENT" then Ok (PDict [("autoincrement", PBool true)])
+    else if String.eqb prod "collate -> COLLATE id" || String.eqb prod "collate -> COLLATE STRING" then
+      match args with [_; v] => Ok (PDict [("collate", v)]) | _ => Unsupported "collate form" end
+    else if String.eqb prod "defcolumn -> defcolumn comment" || String.eqb prod "defcolumn -> defcolumn autoincrement"
+            || String.eqb prod "defcolumn -> defcolumn collate" then act_defcolumn args
+    else if String.eqb prod "column -> column comment" then
+      match args with
+      | [PDict col; PDict c] =>
+          if dict_has col "index_stmt" || dict_has c "type" then Unsupported "column comment: index / type"
+          else Ok (PDict (if tr c "comment" then dict_update col c else col))
+      | _ => Unsupported "column comment form" end
+    else if String.eqb prod "id_or_string -> id" || String.eqb prod "id_or_string -> STRING" || String.eqb prod "dot_id_or_id -> id"
+            || String.eqb prod "dot_id_or_id -> dot_id" then
+      match args with [v] => Ok v | _ => Unsupported "unit form" end
+    else if String.eqb prod "pid -> STRING" then match args with [PStr x] => Ok (PList [PStr x]) | _ => Unsupported "pid form" end
+    else if String.eqb prod "pid -> pid id" || String.eqb prod "pid -> pid STRING" then
+      match args with [PList l; PStr x] => Ok (PList (l ++ [PStr x])) | _ => Unsupported "pid form" end
+    else if String.eqb prod "pid -> pid COMMA STRING" then
+      match args with [PList l; PStr ","; PStr x] => Ok (PList (l ++ [PStr x])) | _ => Unsupported "pid form" end
+    else if String.eqb prod "pid -> id LP RP" || String.eqb prod "pid -> STRING LP RP" then
+      match args with [PStr a; PStr b; PStr c] => Ok (PList [PStr (a ++ b ++ c)]) | _ => Unsupported "pid form" end
+    else if String.eqb prod "dot_id -> id DOT id" || String.eqb prod "dot_id -> dot_id DOT id" then
+      match args with [PStr a; _; PStr b] => Ok (PStr (a ++ "." ++ b)) | _ => Unsupported "dot_id form" end
+    else if String.eqb lhs "f_call" then act_f_call args
+    else if String.eqb prod "multi_id -> multi_id id" || String.eqb prod "multi_id -> f_call" || String.eqb prod "multi_id -> multi_id f_call" then
+      match args with
+      | [PStr a] => Ok (PStr a)
+      | _ => act_multi_id_more args
+      end
+    else if String.eqb prod "funct_expr -> LP multi_id RP" then
+      match args with [_; v; _] => Ok v | _ => Unsupported "funct_expr form" end
+    else if String.eqb prod "default -> DEFAULT LP pid RP" || String.eqb prod "default -> default id" || String.eqb prod "default -> default dot_id" then
+      act_default_more args
+    else if String.eqb prod "default -> DEFAULT f_call" then
+      match args with
+      | [PStr "DEFAULT"; PStr v] => Ok (PDict [("default", default_value v)])
+      | _ => Unsupported "default f_call form" end
     else if String.eqb prod "pkey_statement -> PRIMARY KEY" then Ok (PDict [("primary_key", PNone)])
     else if String.eqb prod "pkey -> pkey_statement LP pid RP" then act_pkey args
     else if String.eqb prod "uniq -> UNIQUE LP pid RP" then act_uniq args
